@@ -983,7 +983,9 @@ class OdeSystem(object):
         else:
             tf = self.tf
 
-        if D.ar_numpy.abs(tf - self.__t[self.counter]) < D.epsilon(self.__y[self.counter].dtype):
+        # "already there" is judged with the tolerance the main loop below stops at: a gap the loop would not step over
+        # must not get as far as clipping dt to half of that gap
+        if D.ar_numpy.abs(tf - self.__t[self.counter]) < D.tol_epsilon(self.__y[self.counter].dtype):
             return
         steps = 0
 
